@@ -63,6 +63,27 @@ def np_floor (x : Val) : Res Val :=
   match x.num? with
   | some q => .val (Val.ofInt q.floor)
   | none => .exc
+/-! numpy scalar functions of extra/aero.py (nan / inf results stop the generated model with an exception) -/
+def np_exp (x : Val) : Res Val := float1 Float.exp x
+def np_sin (x : Val) : Res Val := float1 Float.sin x
+def np_sqrt (x : Val) : Res Val := float1 Float.sqrt x
+def np_radians (x : Val) : Res Val := float1 (fun r => r * (Float.acos (-1.0) / 180.0)) x
+def np_arctan2 (y x : Val) : Res Val := math_atan2 y x
+/-- `a ** b` in double precision (a float exponent) -/
+def float_pow (a b : Val) : Res Val :=
+  match a.num?, b.num? with
+  | some x, some y =>
+    let r := Float.pow (ratToFloat x) (ratToFloat y)
+    if r.isNaN || r.isInf then .exc else .val (.num (floatToRat r))
+  | _, _ => .exc
+/-- `np.maximum(a, b)` of two scalars -/
+def np_maximum (a b : Val) : Res Val :=
+  match a.num?, b.num? with
+  | some x, some y => .val (.num (if x < y then y else x))
+  | _, _ => .exc
+/-- `np.where(c, a, b)` with a scalar condition -/
+def np_where (c a b : Val) : Res Val := .val (if c.truth then a else b)
+
 /-- `np.isclose(a, b)` with the default tolerances `rtol = 1e-5`, `atol = 1e-8` -/
 def np_isclose (a b : Val) : Res Val :=
   match a.num?, b.num? with
